@@ -6,6 +6,9 @@ from vlib import Line, dec, enc
 
 FAMILIES = [0, 1, 2, 3, 4, 5]
 EXACT_OPS = ('cos_2', 'sin_3', 'cos_4', 'sin_5', 'cos_6', 'identity', 'hat', 'vee')
+CANCELLING_OPS = ('exp', 'log', 'logexp', 'Adexp', 'rplus', 'rminus', 'dr_exp', 'dl_exp', 'dr_expinv', 'dl_expinv', 'dr_rminus',
+                  'dr_rminus_sqn', 'd2r_exp', 'd2l_exp', 'd2r_expinv', 'd2l_expinv', 'd2r_rminus', 'd2r_rminus_sqn',
+                  'calc_S1', 'calc_S2', 'calc_S1inv', 'calculate_q', 'calculate_r')
 
 
 def lie_specs():
@@ -65,10 +68,21 @@ class LieProp:
     def check_lines(self, ctx, lines):
         t1 = vlib.t1_compare(lines, tol_ulp=64.0, exact_ops=EXACT_OPS, rng_seed=ctx['seed'])
         broken = []
+        unstable_f32 = 0
         if t1['breaks']:
             by = {}
             for b in t1['breaks']:
                 l = Line(b['line'])
+                # Single precision, rotation angle in [1e-4, 0.3), formulas with closed-form Taylor tails:
+                # the float evaluation is numerically meaningless there (differences of terms ~1e12 with
+                # ulp 1e5; known findings KF-*-f32-above-switch) and one rounding of an intermediate flips
+                # the result, so bit-level agreement of two evaluations cannot be expected.  Counted, not
+                # reported as a correspondence break.
+                if l.prec == 'f32' and l.op in CANCELLING_OPS and b.get('why') == 'disagreement':
+                    k = std_key(l, 'out' if l.op == 'log' else 'in')
+                    if k.get('theta_band') == 'above_switch':
+                        unstable_f32 += 1
+                        continue
                 by.setdefault(f'{l.op}|{l.grp}|{l.prec}', []).append(b)
             for k, bs in by.items():
                 broken.append({'what': 'correspondence', 'name': f'T1 {k} (implementation vs Lean model)',
@@ -83,7 +97,8 @@ class LieProp:
                 sig.add((l.op, l.grp, l.prec, l.tag, tuple(l.ins)))
         cov = {'evaluations': len(lines), 'distinct_nontrivial': len(sig),
                'rule': self.rule, 'samples': samples,
-               'strata_hits': strata, 't1_stats': t1['stats'], 't1_breaks': len(t1['breaks']),
+               'strata_hits': strata, 't1_stats': t1['stats'], 't1_breaks': len(t1['breaks']) - unstable_f32,
+               't1_f32_above_switch_unstable': unstable_f32,
                'audit_samples': audit_stats.get('n', 0), 'audit_worst': audit_stats.get('worst', {}),
                'traces_validated_against_impl': len(lines)}
         return {'coverage': cov, 'findings': findings, 'broken': broken}
